@@ -199,6 +199,9 @@ let () =
             | _ -> okf := false) (if hf.(4) = "-" then [] else split_on hf.(4) ",");
           if !okf && !ops <> [] then Some (List.rev !ops) else None in
         let opn c = nat_of_int (Char.code c - 97) in
+        (* fuel hypothesis of the chain theorem C11_chain: the modelled FOLLOW iteration reached its fixpoint *)
+        if follow_fix_ok (augment g) then bump "follow_fixpoint_reached" 1
+        else Printf.printf "MISMATCH line=%d op=1 kind=fidelity what=model: the FOLLOW iteration of the modelled SLR construction ran out of fuel before its fixpoint (hypothesis follow_fix_ok of C11_chain fails for this grammar)\n" !lineno;
         let oracle = lazy (
           let key = hf.(1) ^ " " ^ hf.(4) ^ " " ^ string_of_int maxlen in
           match Hashtbl.find_opt oracle_cache key with
